@@ -239,9 +239,16 @@ impl GenerateConfig {
         }
 
         // Insert typegen configuration into plugins
-        if let Some(plugins) = tauri_obj.get_mut("plugins") {
-            if let Some(plugins_obj) = plugins.as_object_mut() {
+        match tauri_obj.get_mut("plugins").and_then(|p| p.as_object_mut()) {
+            Some(plugins_obj) => {
                 plugins_obj.insert("typegen".to_string(), typegen_config);
+            }
+            None => {
+                // Nothing could be inserted: do not report success for a file that was left unchanged
+                return Err(ConfigError::InvalidConfig(format!(
+                    "\"plugins\" in {} is not an object; cannot store the typegen configuration",
+                    path.as_ref().display()
+                )));
             }
         }
 
